@@ -118,6 +118,11 @@ Gen(kind) ==
     [] kind = "ClearBusListenerFilters" -> {[k |-> kind, cookie |-> x] : x \in Pool("lst")}
     [] kind = "StartBusListener" -> {[k |-> kind, serial |-> s, cookie |-> x, scope |-> sc] : s \in CSerials, x \in Pool("lst"), sc \in {"Current", "New", "All"}}
     [] kind = "StopBusListener" -> {[k |-> kind, serial |-> s, cookie |-> x] : s \in CSerials, x \in Pool("lst")}
+    [] kind = "RegisterIntrospection" -> {[k |-> kind, val |-> 1, ok |-> TRUE, tids |-> SetToSeq(T)] : T \in SUBSET TypeIds \ {{}}}
+                                         \cup {[k |-> kind, val |-> 2, ok |-> FALSE, tids |-> <<>>]}
+    [] kind = "QueryIntrospection" -> {[k |-> kind, serial |-> s, tid |-> t] : s \in CSerials, t \in TypeIds}
+    [] kind = "QueryIntrospectionReply" -> {[k |-> kind, serial |-> s, res |-> r, val |-> IF r = "Ok" THEN 1 ELSE 0] :
+                                              s \in DOMAIN bk.queryIntro \cup {bk.nextQSerial}, r \in {"Ok", "Unavailable"}}
     [] kind \in WrongKinds -> {[k |-> kind, serial |-> 0]}
     [] OTHER -> {}
 
@@ -183,15 +188,25 @@ StopCond == bk.shutdownNow \/ (bk.shutdownIdle /\ DOMAIN bk.conns = {})
 CookieUsed(b, k) == \E i \in 1..Len(b.out) : b.out[i].m.k \in {"CreateObjectReply", "CreateServiceReply", "CreateChannelReply", "CreateBusListenerReply"}
                                               /\ b.out[i].m.cookie = k
 
+\* query_random_conn: any registered connection (only explored when introspection is enabled)
+Picks == IF "QueryIntrospection" \in Kinds
+           THEN {[conn |-> p, order |-> o] :
+                   p \in {p \in [TypeIds -> Conns \cup {-1}] : \A t \in TypeIds :
+                            IF t \in DOMAIN bk.intro /\ bk.intro[t].conns # {} THEN p[t] \in bk.intro[t].conns ELSE p[t] = -1},
+                   o \in SetToSeqs(TypeIds)}
+           ELSE {[conn |-> [t \in TypeIds |-> -1], order |-> <<>>]}
+
 Dequeue ==
   /\ pc = "idle" /\ ~StopCond /\ inq # <<>>
-  /\ LET ev == Head(inq)
-         b2 == HandleEvent(bk, ev, nextCookie)
+  /\ \E pick \in Picks :
+     LET ev == Head(inq)
+         b2 == HandleEvent(bk, ev, nextCookie, pick)
          used == ev.t = "msg" /\ CookieUsed(b2, nextCookie) IN
      /\ bk' = b2
      /\ inq' = Tail(inq)
      /\ nextCookie' = IF used THEN nextCookie + 1 ELSE nextCookie
      /\ ctype' = IF used THEN Put(ctype, nextCookie, CreateType(ev.m.k)) ELSE ctype
+     /\ b2.panic # "query_random_conn: pick outside the registered connections"
      /\ rec' = ev @@ [out |-> b2.out]
      /\ pc' = "working"
   /\ obs' = O!ObsStep(obs, rec')
@@ -200,8 +215,9 @@ Dequeue ==
 Work ==
   /\ pc = "working" /\ WorkLeft(bk)
   /\ LET cl == TopClass(bk) IN
-     \E w \in DOMAIN bk.work[cl] :
-       LET b2 == ProcessWork(bk, cl, w) IN
+     \E w \in DOMAIN bk.work[cl] : \E pick \in Picks :
+       LET b2 == ProcessWork(bk, cl, w, pick) IN
+       /\ b2.panic # "query_random_conn: pick outside the registered connections"
        /\ bk' = b2
        /\ rec' = WorkRec(cl, w, b2.out)
   /\ obs' = O!ObsStep(obs, rec')
